@@ -85,11 +85,11 @@ bool exec_arith(ExecCtx &c) {
                 try {
                   Y y2 = rebuild_on(x, y);
                   uint64_t h2;
-                  if (op.kind == OP_P_ADD) h2 = hash_spline(x + y2);
-                  else if (op.kind == OP_P_SUB) h2 = hash_spline(x - y2);
-                  else h2 = hash_spline(x * y2);
+                  if (op.kind == OP_P_ADD) h2 = hash_spline_wc(x + y2);
+                  else if (op.kind == OP_P_SUB) h2 = hash_spline_wc(x - y2);
+                  else h2 = hash_spline_wc(x * y2);
                   probe(PR_TWIN_COMPARED);
-                  if (h2 != hash_spline(*res))
+                  if (h2 != hash_spline_wc(*res))
                     add_violation(c, "C08", "equal-grid-result-differs",
                                   std::string(site) + ": result with distinct equal grids differs from shared instance", site);
                 } catch (const std::exception &) {
@@ -144,7 +144,7 @@ bool exec_arith(ExecCtx &c) {
                   Y y2 = rebuild_on(x, y);
                   X x2 = x;
                   if (op.kind == OP_P_IADD) x2 += y2; else x2 -= y2;
-                  twin = hash_spline(x2);
+                  twin = hash_spline_wc(x2);
                   have_twin = true;
                 } catch (const std::exception &) {
                 }
@@ -164,7 +164,7 @@ bool exec_arith(ExecCtx &c) {
 #endif
                 if (have_twin) {
                   probe(PR_TWIN_COMPARED);
-                  if (twin != hash_spline(x))
+                  if (twin != hash_spline_wc(x))
                     add_violation(c, "C08", "equal-grid-result-differs",
                                   std::string(site) + ": result with distinct equal grids differs from shared instance", site);
                 }
@@ -324,7 +324,7 @@ bool exec_arith(ExecCtx &c) {
                   tw.push_back(sv[0]);
                   for (size_t i = 1; i < sv.size(); i++) tw.push_back(rebuild_on(sv[0], sv[i]));
                   probe(PR_TWIN_COMPARED);
-                  if (hash_spline(bspline::linearCombination(cs, tw)) != hash_spline(*res))
+                  if (hash_spline_wc(bspline::linearCombination(cs, tw)) != hash_spline_wc(*res))
                     add_violation(c, "C08", "equal-grid-result-differs", "linearCombination", "linearCombination");
                 } catch (const std::exception &) {
                 }
